@@ -1,6 +1,7 @@
 // verif_harness: drives the real encoding_rs API and records ndjson traces for TLC trace validation.
 mod dec;
 mod enc;
+mod guard;
 mod inputs;
 mod mem;
 mod misc;
@@ -200,8 +201,19 @@ fn dec_cutsets(cx: &mut Ctx) {
                 streams.push(s);
             }
         }
+        // potential-BOM prefixes followed by class bytes (cut everywhere, sniffing / BOM-removal decoders)
+        let nplain = streams.len();
+        for pre in [&[0xEFu8, 0xBB][..], &[0xEF], &[0xFE], &[0xFF], &[0xEF, 0xBB, 0xBF], &[0xFF, 0xFE], &[0xFE, 0xFF]] {
+            for &b in alpha.iter().step_by(if cx.thorough { 1 } else { 3 }) {
+                let mut v = pre.to_vec();
+                v.push(b);
+                streams.push(v.clone());
+                v.push(0x41);
+                streams.push(v);
+            }
+        }
         let mut hcount = 0usize;
-        for s in streams.iter() {
+        for (si, s) in streams.iter().enumerate() {
             let n = s.len();
             let ncuts = 1usize << (n - 1);
             for mask in 0..ncuts {
@@ -217,7 +229,13 @@ fn dec_cutsets(cx: &mut Ctx) {
                 let sink = ALL_SINKS[(hcount + cx.seed as usize) % 4];
                 let repl = (hcount / 4) % 2 == 0;
                 let caps = caps_list(sink, cx.thorough);
-                let mode = if hcount % 11 == 0 { Mode::Sniff } else { Mode::Off };
+                let mode = if si >= nplain {
+                    if hcount % 3 == 0 { Mode::Remove } else { Mode::Sniff }
+                } else if hcount % 11 == 0 {
+                    Mode::Sniff
+                } else {
+                    Mode::Off
+                };
                 let capsel: Vec<usize> = if cx.thorough && mask % 2 == 0 { caps.clone() } else { vec![caps[(hcount / 8) % caps.len()]] };
                 for c in capsel {
                     let mut cfg = hc(e, mode, sink, repl);
@@ -662,6 +680,24 @@ fn deep_alphabet(name: &str) -> Vec<u8> {
     }
 }
 
+/// whole characters (valid sequences of every length class, plus a lone lead) of an encoding: streams built from
+/// these reach the bulk / fast paths with several characters in one buffer
+fn char_alphabet(name: &str) -> Vec<Vec<u8>> {
+    let v: Vec<&[u8]> = match name {
+        "UTF-8" => vec![&[0x41], &[0xC3, 0xA9], &[0xE2, 0x82, 0xAC], &[0xF0, 0x9F, 0x92, 0xA9], &[0xC3]],
+        "UTF-16LE" => vec![&[0x41, 0x00], &[0xE9, 0x00], &[0xAC, 0x20], &[0x3D, 0xD8, 0xA9, 0xDC], &[0x00, 0xD8], &[0x00, 0xDC], &[0xFF, 0xDF], &[0x41]],
+        "UTF-16BE" => vec![&[0x00, 0x41], &[0x00, 0xE9], &[0x20, 0xAC], &[0xD8, 0x3D, 0xDC, 0xA9], &[0xD8, 0x00], &[0xDC, 0x00], &[0xDF, 0xFF], &[0x41]],
+        "Big5" => vec![&[0x41], &[0xA4, 0x40], &[0x88, 0x62], &[0xFA, 0x40], &[0xA4]],
+        "gb18030" | "GBK" => vec![&[0x41], &[0x81, 0x40], &[0x81, 0x30, 0x81, 0x30], &[0x90, 0x30, 0x81, 0x30], &[0x80], &[0x81, 0x30]],
+        "EUC-JP" => vec![&[0x41], &[0xA4, 0xA2], &[0x8E, 0xB1], &[0x8F, 0xB0, 0xA1], &[0x8F]],
+        "Shift_JIS" => vec![&[0x41], &[0x82, 0xA0], &[0xB1], &[0x80], &[0x82]],
+        "EUC-KR" => vec![&[0x41], &[0x2C], &[0xB0, 0xA1], &[0x81, 0x41], &[0xB0]],
+        "ISO-2022-JP" => vec![&[0x41], &[0x1B, 0x24, 0x42], &[0x24, 0x22], &[0x1B, 0x28, 0x42], &[0x1B, 0x28, 0x4A], &[0x5C]],
+        _ => vec![&[0x41], &[0x2C], &[0xE9], &[0x80]],
+    };
+    v.into_iter().map(|x| x.to_vec()).collect()
+}
+
 /// deep bounded-exhaustive profile: every stream up to length 5 (thorough: 6) over a small per-encoding alphabet,
 /// whole and cut in two at every position, at the documented minimum capacities (and minimum + 1), with and
 /// without replacement.  Reaches multi-error interactions inside one call that short class-alphabet streams miss.
@@ -675,11 +711,30 @@ fn dec_deep(cx: &mut Ctx) {
         for len in 1..=maxlen {
             for_all_strings(&alpha, len, &mut |s| streams.push(s.to_vec()));
         }
+        // character-level streams: every sequence of up to 5 (6) whole characters
+        {
+            let ca = char_alphabet(name);
+            let idx: Vec<u8> = (0..ca.len() as u8).collect();
+            let maxc = if cx.thorough { 6 } else { 5 };
+            for len in 2..=maxc {
+                if ca.len() >= 7 && len >= 5 && !cx.thorough {
+                    continue;
+                }
+                for_all_strings(&idx, len, &mut |ix| {
+                    let mut v: Vec<u8> = Vec::new();
+                    for &i in ix.iter() {
+                        v.extend_from_slice(&ca[i as usize]);
+                    }
+                    streams.push(v);
+                });
+            }
+        }
         let mut k = 0usize;
         for s in streams.iter() {
             k += 1;
             let n = s.len();
-            let combos: [(Sink, bool, usize); 4] = [(Sink::Utf8, true, 0), (Sink::Utf16, true, 0), (Sink::Utf8, false, 0), (Sink::Utf8, true, 1)];
+            let x = k % 4; // capacities minimum .. minimum + 3 rotate over the streams
+            let combos: [(Sink, bool, usize); 4] = [(Sink::Utf8, true, 0), (Sink::Utf16, true, x % 3), (Sink::Utf8, false, x), (Sink::Utf16, false, (x + 1) % 4)];
             // whole stream in every combination
             for (ci, (sink, repl, extra)) in combos.iter().enumerate() {
                 if !cx.thorough && n >= 5 && (k + ci + cx.seed as usize) % 2 != 0 {
@@ -746,6 +801,14 @@ fn main() {
         "enc-cutsets" => enc_cutsets(&mut cx),
         "enc-random" => enc_random(&mut cx),
         "enc-replay" => enc::replay(&mut cx.sh, &arg_val(&args, "--in").expect("--in FILE")),
+        "guard" => {
+            guard::parent(seed, thorough, &out);
+            std::process::exit(0);
+        }
+        "guard-child" => {
+            guard::child(seed, thorough, arg_usize(&args, "--from", 0), &format!("{}/progress", out), &out);
+            std::process::exit(0);
+        }
         "mem" => mem::mem(&mut cx, &arg_val(&args, "--which").unwrap_or_else(|| "all".to_string())),
         "labels" => misc::labels(&mut cx, &arg_val(&args, "--data").unwrap_or_else(|| "/verif/spec/data".to_string())),
         "oneshot" => misc::oneshot(&mut cx),
